@@ -304,6 +304,14 @@ def run(ctx, mod):
             elif not set(a) <= ACCEPTED_AXIOMS:
                 broken.append('theorem %s depends on unaccepted axioms %s' % (t, a))
     discharged = sum(1 for t in theorems if ax.get(t) is not None and set(ax[t]) <= ACCEPTED_AXIOMS)
+    rechecked = None
+    if ok and ctx.thorough and mod.LEAN_TARGETS:
+        # independent re-check of the compiled proof modules by the toolchain's own checker
+        rc, out = sh(['lake', 'env', 'leanchecker'] + list(mod.LEAN_TARGETS), cwd=LEAN, timeout=3000)
+        rechecked = (rc == 0)
+        if rc != 0:
+            broken.append('leanchecker rejects %s: %s' % (' '.join(mod.LEAN_TARGETS), out[-300:]))
+        ctx.log('leanchecker:', 'ok' if rc == 0 else 'FAILED')
     ctx.log('obligations %d discharged %d' % (len(theorems), discharged))
     used_axioms = sorted({x for a in ax.values() if a for x in a})
 
@@ -366,6 +374,7 @@ def run(ctx, mod):
         'checker_cmd': 'cd lean && lake build %s && lake env lean <audit: #print axioms of each theorem>' % ' '.join(mod.LEAN_TARGETS),
         'trusted_base': ['Lean 4.33 kernel'] + ['axiom ' + a for a in used_axioms] + list(getattr(mod, 'TRUSTED', [])),
         'theorems': {t: ax.get(t) for t in theorems},
+        'leanchecker_recheck': rechecked,
         'partial_clauses': list(getattr(mod, 'PARTIAL', [])),
         'traces_validated_against_impl': corr.evaluations,
         'correspondence': {'cases': corr.evaluations, 'distinct_nontrivial': len(corr.nontrivial),
